@@ -127,7 +127,7 @@ def analyse(fn):
     names = {s.targets[0].id: s for s in inner.body if isinstance(s, ast.Assign) and isinstance(s.targets[0], ast.Name)}
     edge = [n for n, s in names.items() if unparse(s.value).replace(" ", "") == "%s[%s,%s]" % (EE, K, I)]
     if len(edge) != 1:
-        out.append(("edge of (element, local index)", False, "no local is defined as %s[local_index, element]" % EE, inner.lineno))
+        out.append(("edge of (element, local index)", roles.found_or(False, names, EE + "["), "no local is defined as %s[local_index, element]" % EE, inner.lineno))
         return out
     ED_ = edge[0]
     lvi = None
